@@ -39,10 +39,17 @@ func (b *Buffer) Put(key, value []byte) {
 	b.mu.Lock()
 	defer b.mu.Unlock()
 
-	// Store in the operations map - skiplist handles defensive copying
+	// The operation stays in the buffer until commit, so it must not alias the
+	// caller's slices: the caller may reuse them right after the call
+	keyCopy := append([]byte(nil), key...)
+	var valueCopy []byte
+	if value != nil {
+		valueCopy = append([]byte{}, value...)
+	}
+
 	b.operations[string(key)] = &Operation{
-		Key:      key,
-		Value:    value,
+		Key:      keyCopy,
+		Value:    valueCopy,
 		IsDelete: false,
 	}
 }
@@ -52,9 +59,9 @@ func (b *Buffer) Delete(key []byte) {
 	b.mu.Lock()
 	defer b.mu.Unlock()
 
-	// Store in the operations map - skiplist handles defensive copying
+	// As in Put: do not alias the caller's key slice
 	b.operations[string(key)] = &Operation{
-		Key:      key,
+		Key:      append([]byte(nil), key...),
 		Value:    nil,
 		IsDelete: true,
 	}
